@@ -3,9 +3,9 @@
     their axiom audit and non-vacuity examples. *)
 From Coq Require Import ZArith List Bool Lia.
 From Low Require Import Lib.Bits Lib.BitSeq Lib.Lex Lib.Bytes Model.Sigbits Spec.SigbitsSpec Spec.ShardRouteSpec
-  Spec.ShardSplitSpec
+  Spec.ShardSplitSpec Spec.ShardTotalSpec
   Proofs.SigbitsShardChecker Proofs.SigbitsLcpAll Proofs.SigbitsShard Proofs.SigbitsShardRoute
-  Proofs.SigbitsShardDomain Model.Sharding32 Proofs.Sharding32Proofs.
+  Proofs.SigbitsShardDomain Model.Sharding32 Proofs.Sharding32Proofs Proofs.SigbitsShardTotal.
 Import ListNotations.
 Open Scope Z_scope.
 
@@ -230,3 +230,24 @@ Example C17_exact_nonvacuous :
                           [97; 98; 99; 100; 101; 102; 103; 104; 105; 128]]; [[255]]] /\
   spec_ShardByPrefix keys 2 = ([1; 1; 2; 9; 1], [0; 1; 2; 3; 5; 6]).
 Proof. cbv zeta. repeat split; vm_compute; reflexivity. Qed.
+
+(** Widening: totality, without any order hypothesis (model fact; the correspondence run stays on
+    the property's domain).  For EVERY non-empty list of byte strings -- unsorted, repeated keys --
+    and maxSize >= 1, ShardByPrefix neither panics nor recurses forever and returns contiguous
+    shards of at most maxSize keys with their exact common-prefix lengths ([shard_spec] without
+    its last clause).  Only the order of the prefixes needs strictly ascending keys: with a
+    repeated key and maxSize = 1 two shards get the same prefix. *)
+Theorem C17_total_any_order : forall keys maxSize,
+  keys <> [] -> keys_ok keys -> 1 <= maxSize ->
+  exists L B, ShardByPrefix keys maxSize = Some (L, B) /\ shard_spec_unordered keys maxSize L B.
+Proof. exact ShardByPrefix_total. Qed.
+Print Assumptions C17_total_any_order.
+
+Example C17_total_nonvacuous :
+  ShardByPrefix [[98]; [97]; [97]; [97; 99]] 2 = Some ([1; 1; 1; 2], [0; 1; 2; 3; 4]) /\
+  shard_ok [[98]; [97]; [97]; [97; 99]] 2 [1; 1; 1; 2] [0; 1; 2; 3; 4] = false /\
+  ~ strict_asc [[98]; [97]; [97]; [97; 99]].
+Proof.
+  split; [vm_compute; reflexivity|]. split; [vm_compute; reflexivity|].
+  intros H. specialize (H ([98], [97]) (or_introl eq_refl)). discriminate H.
+Qed.
